@@ -31,3 +31,6 @@ def run(ctx):
     from .restate import restate_f64_primitives
     from .c06 import find_sector
     restate_f64_primitives(ctx, [lambda: find_sector(ctx, ctx.roles)], "the jacobian assembly and the sector routine", shallow=[lambda: ctx.roles.sample()])
+    # the signature (and table) these formulas read are the ones the caller handed to build_sampler (restated from C05-b)
+    from .restate import restate_sampler_is_callers
+    restate_sampler_is_callers(ctx)
